@@ -65,6 +65,8 @@ func c09(args []string) error {
 	schemes := []sch{
 		{true, 0, 0, -10, -0.5}, {true, 0, 0, -2, -1}, {true, 0, 0, -1, -0.5},
 		{false, 1, -1, -10, -0.5}, {false, 1, -1, -2, -1}, {false, 2, -1, -1, -0.5}, {false, 1, -2, -1, -1}, {false, 2, -2, -2, -0.5},
+		// opening much dearer than extending, a match dearer than an opening
+		{true, 0, 0, -3, -0.5}, {true, 0, 0, -4, -1}, {false, 5, -4, -3, -0.5}, {false, 3, -1, -2.5, -0.5}, {false, 4, -1, -3, -1},
 	}
 
 	// exhaustive: all pairs up to a small length over a reduced alphabet
@@ -93,7 +95,7 @@ func c09(args []string) error {
 			if g.tier != "thorough" && cnt%3 != int(g.seed%3) {
 				continue
 			}
-			one(a, b, schemes[3+cnt%5], false, "exhaustive")
+			one(a, b, schemes[3+cnt%10], false, "exhaustive")
 		}
 	}
 
